@@ -142,6 +142,21 @@ PLANS = {
             "OmegaHOL / SimplexHOLWrapper proof construction is exercised only through solve_matrix's verdict",
         ],
     ),
+    'C07': dict(
+        specs=[], contracts=[], targets=[], bounded=['bounded.c07_roundtrip.run'], level='exploration',
+        native_per_fn={'quick': 0, 'thorough': 0}, rule='see coverage.bounded[0].rule',
+        assumptions=['bounded stand-in only: the round trip runs through a Lark LALR table generated at import from a grammar string; no function contract an SMT solver can discharge relates printed text to the parsed term. Instantiations and exported proof steps are not yet exercised'],
+    ),
+    'C09': dict(
+        specs=[], contracts=[], targets=[], bounded=['bounded.c09_matcher.run'], level='exploration',
+        native_per_fn={'quick': 0, 'thorough': 0}, rule='see coverage.bounded[0].rule',
+        assumptions=['bounded stand-in only: run-time contract on first_order_match over generated pattern/target pairs; the closures of the matcher mutate a shared Inst and were not brought under a deductive contract'],
+    ),
+    'C10': dict(
+        specs=[], contracts=[], targets=[], bounded=['bounded.c10_conv.run'], level='exploration',
+        native_per_fn={'quick': 0, 'thorough': 0}, rule='see coverage.bounded[0].rule',
+        assumptions=['bounded stand-in only: run-time contract on conversions (equation about t, checker accepts the exported proof, eval agrees) and canonicity/idempotence of normalisers over generated terms and rearrangements'],
+    ),
     'C20': dict(
         models=['models.imperative'], specs=['spec.imp'], contracts=['contracts.imperative'],
         targets=['imperative.expr.Var.subst', 'imperative.expr.ArrayElt.subst', 'imperative.expr.Field.subst',
